@@ -325,7 +325,7 @@ def py_ct(kind, ct):
     good = ty == "application" and ((base == "json" or suffix == "json") if kind == "json" else (base == "x-www-form-urlencoded"))
     if not good:
         return {"ct-mismatch"}
-    if not sep or re.fullmatch(r"( *%s+=(%s+|\"[^\"\\]+\") *(;|$))* *" % (TOK, TOK), params):
+    if not sep or re.fullmatch(r"(; *%s+=(%s+|\"[^\"\\]+\"))+" % (TOK, TOK), sep + params):
         return {"ct-ok"}
     return {"ct-ok", "ct-mismatch"}
 
@@ -399,8 +399,11 @@ def oracle_json(case, out):
     if got_gate != "ct-ok":
         return None
     body = bytes(case["body"])
+    strict_utf8 = is_utf8(body)
     try:
-        doc = json.loads(body.decode("utf-8"), object_pairs_hook=lambda ps: ("obj", ps), parse_int=lambda x: ("int", x),
+        # serde_json does not validate UTF-8 (or surrogate pairing) inside the values of fields it
+        # ignores; such bodies are judged on the replaced text and may be accepted or rejected.
+        doc = json.loads(body.decode("utf-8", "replace"), object_pairs_hook=lambda ps: ("obj", ps), parse_int=lambda x: ("int", x),
                          parse_float=lambda x: ("float", x), parse_constant=_const)
     except (ValueError, _Reject, RecursionError):
         return None if r == "err" and out["kind"] in ("json-syntax", "json-eof", "json-data") else \
@@ -444,6 +447,8 @@ def oracle_json(case, out):
             problems.append("%s: %s" % (n, pr))
         values[n] = x
     lenient_str = [n for n, ty in fields if base(ty) == "str"]
+    if r == "err" and not strict_utf8:
+        return None
     if r == "err":
         if out["kind"] not in ("json-data", "json-syntax"):
             return "json: well-formed document rejected as %s" % out["kind"]
@@ -815,7 +820,7 @@ def nontrivial(case, out):
         return case.get("ct") is not None
     if op == "utf8":
         return any(c >= 128 for c in case["b"])
-    return len(case["b"]) > 0
+    return len(case.get("b", [])) > 0
 
 
 def mutate(rng, c):
@@ -833,6 +838,17 @@ def run(R):
         "floats are outside the supported subset of the model (f32/f64 fields are not generated)",
     ]
     R.coverage["trusted_base"].append("the JSON canonicalisation of extracted structs in harness/crates/reqdata/src/shapes.rs and the error-message classifier in main.rs")
+    if R.replay:
+        rp = json.load(open(R.replay))["replay"]
+        if any(c and c.get("op") == "json" for c in (rp.get("cases") or [rp.get("case")])):
+            # a JSON-body replay: oracle-only path (there is no model operation to diff against)
+            pxvlib.lean_obligations(R, ["Pxv.Thm.C15"])
+            ok, out = pxvlib.build_harness(R, "reqdata")
+            if not ok:
+                R.violation("harness does not build against the current tree (broken tie)", {"cargo_output_tail": out[-3000:]}, no_failing_input=True)
+                return
+            json_phase(R, 0)
+            return
     pxvlib.differential(
         R, modules=["Pxv.Thm.C15"], model="reqdata", pkg="reqdata", gen=gen, oracle=oracle, nontrivial=nontrivial, mutate=mutate,
         match_known=match_known_factory(R),
